@@ -436,8 +436,19 @@ def _walk(d, L):
             if validate or bad:
                 f = run_path(shape, path)
                 if observe(f) != observe(c):
-                    raise core.HarnessError('fresh replay of %r differs from snapshot/restore walk: %r vs %r'
-                                            % (path, observe(f), observe(c)))
+                    # The plain re-execution on fresh objects is the reference for what the code does.  If IT violates
+                    # the property (e.g. recorder lists aliased after clear(), which snapshot/restore cannot reproduce),
+                    # that is a violation of the code under test; only a divergence on a clean replay is a harness fault.
+                    fbad, _fwd = check_node(f, short_too=False)
+                    if not fbad:
+                        raise core.HarnessError('fresh replay of %r differs from snapshot/restore walk: %r vs %r'
+                                                % (path, observe(f), observe(c)))
+                    for what, det in fbad:
+                        det = dict(det)
+                        det['note'] = 'observed on the plain re-execution of this history on a fresh system'
+                        report(what, det)
+                    nbad[0] += 1
+                    return
                 R['traces_validated_against_impl'] += 1
             for what, det in bad:
                 report(what, det)
